@@ -360,6 +360,37 @@ func c03Run(c *core.Ctx) {
 			return
 		}
 	}
+	// ---- deep nesting: documents nested N levels deep, N around the readers' limit and far beyond, with
+	// declarations that walk the whole tree (its text, a copy of it, _node); each Read returns ----
+	for _, deep := range []struct{ name, format, open, leaf, close string }{
+		{"json-arrays", "json", "[", "1", "]"}, {"json-objects", "json", `{"a":`, "1", "}"}, {"xml-elements", "xml", "<a>", "x", "</a>"}, {"xml-elements-with-attributes", "xml", `<a k="1">`, "x", "</a>"}} {
+		for di, decl := range []string{`"object":{"v":{"xpath":"."}}`, `"custom_func":{"name":"copy"}`, `"object":{"v":{"custom_func":{"name":"javascript_with_context","args":[{"const":"_node.length"}]}}}`,
+			`"object":{"v":{"xpath":".//*[.='1']","keep_empty_or_null":true}}`} {
+			for _, n := range []int{100, 9999, 10000, 10001, 50000, 1000000} {
+				idx++
+				if !c.Mine(idx) {
+					continue
+				}
+				target := `"xpath":"/a",`
+				if deep.format == "json" {
+					target = ""
+				}
+				text := `{"parser_settings":{"version":"omni.2.1","file_format_type":"` + deep.format + `"},"transform_declarations":{"FINAL_OUTPUT":{` + target + decl + `}}}`
+				cs := c03Case{Family: "deep-nesting:" + deep.name, Schema: text, Note: fmt.Sprintf("declaration %d; input = %q x %d + %q + %q x %d", di, deep.open, n, deep.leaf, deep.close, n)}
+				c.Begin(func() interface{} {
+					cs.InputS = strings.Repeat(deep.open, n) + deep.leaf + strings.Repeat(deep.close, n)
+					return cs
+				})
+				sig, detail, _ := c03Schema(text, "deep-nesting", []string{strings.Repeat(deep.open, n) + deep.leaf + strings.Repeat(deep.close, n)})
+				c.Eval(fmt.Sprintf("deep|%s|%d|%v", deep.name, di, n > 10000))
+				c.Count("deep_nesting_inputs", 1)
+				if sig != "" {
+					cs.InputS = strings.Repeat(deep.open, n) + deep.leaf + strings.Repeat(deep.close, n)
+					report(sig, trunc2(detail, 2000)+"\n"+cs.Note, cs)
+				}
+			}
+		}
+	}
 	{
 		xhdr := `"parser_settings":{"version":"omni.2.1","file_format_type":"xml"}`
 		xin := `<r><o k="1"><a>1</a><b>x</b><e>a='1' and b='x'</e></o><o><a>2</a><e>true()</e><e>position()</e></o></r>`
